@@ -199,17 +199,21 @@ def main(a, seed):
   samples_out = []
   nodes_info = {}
   pool = mp.get_context("fork").Pool(min(a.procs, 12))
+  import threading
+  z3_lock = threading.Lock()
   try:
     def do_cfg(cfg):
       nonlocal validated
       P, H, LMAX = cfg["P"], cfg["H"], cfg["LMAX"]
       FL = bool(cfg.get("faults"))
       try:
-        m = Model(path, P=P, LMAX=LMAX, H=H, faults=FL)
+        with z3_lock:          # the z3 API is not thread-safe: this process only builds the model to report its size
+          m = Model(path, P=P, LMAX=LMAX, H=H, faults=FL)
+          nodes_info["P%dH%d" % (P, H)] = {"cfg_nodes": m.nodes_before_reduction, "after_reduction": m.nodes_total()}
+          del m
       except Unsupported as e:
         inconcl.append({"clause": "translator", "why": "translator does not support the current source: %s" % e})
         return
-      nodes_info["P%dH%d" % (P, H)] = {"cfg_nodes": m.nodes_before_reduction, "after_reduction": m.nodes_total()}
       # 1. completeness threshold: smallest K of the ladder with no longer run
       K = None
       if not cfg.get("hunt"):
